@@ -16,6 +16,14 @@ import (
 // triYes/triNo if every reachable return yields that constant and triUnknown
 // otherwise (a condition that is not an atom, or a non-boolean return).
 func TruthTable(f *FuncInfo, nAtoms int, atom func(e ast.Expr) (idx int, neg, ok bool), valid func(v uint) bool) map[uint]tri {
+	return TruthTableCase(f, nAtoms, atom, nil, valid)
+}
+
+// TruthTableCase is TruthTable with an additional recogniser for tagged
+// switches: caseAtom maps `tag == val` of a case clause to an atom (the
+// clause matches iff the atom holds; with several values per clause the first
+// one matches).
+func TruthTableCase(f *FuncInfo, nAtoms int, atom func(e ast.Expr) (idx int, neg, ok bool), caseAtom func(tag, val ast.Expr) (idx int, ok bool), valid func(v uint) bool) map[uint]tri {
 	info := f.Info()
 	out := map[uint]tri{}
 	// bool locals
@@ -187,8 +195,20 @@ func TruthTable(f *FuncInfo, nAtoms int, atom func(e ast.Expr) (idx int, neg, ok
 			case triNo:
 				return nil, []st{s}
 			}
-			results[triUnknown] = true // a branch on something that is not an atom
+			// a branch on something that is not an atom: both outcomes; the
+			// function is determined by the atoms only if they agree
 			return []st{s}, []st{s}
+		}
+		if caseAtom != nil {
+			fl.Case = func(tag, val ast.Expr, s st) (t, fs []st) {
+				if i, ok := caseAtom(tag, val); ok {
+					if v&(1<<uint(i)) != 0 {
+						return []st{s}, nil
+					}
+					return nil, []st{s}
+				}
+				return []st{s}, []st{s}
+			}
 		}
 		fl.Run(st{})
 		switch {
